@@ -4,8 +4,10 @@
 (* KindSet x BodySet, with the interface's spawn flag from SpawnSet.                                 *)
 (*   MC_Dispatch_c29.cfg   3 method calls (&self / &mut self), handlers with two yield points or a    *)
 (*                         yield and an object-server mutation; spawn disabled and enabled            *)
-(*   MC_Dispatch_c30.cfg   3 calls over all five kinds, handlers that yield and mutate; deadlock      *)
-(*                         check, NoLoss                                                              *)
+(*   MC_Dispatch_c30.cfg   3 calls over all five kinds, every handler yields and mutates the object   *)
+(*                         server; deadlock check, NoLoss (_thorough: also emitting handlers;         *)
+(*                         c29_thorough: 4 calls)                                                     *)
+(*   MC_Dispatch_cov.cfg   2 calls, all kinds, run with -coverage: every action must be taken         *)
 (*   MC_Dispatch_live.cfg  2 calls, all kinds: additionally <>(every call answered) under fairness    *)
 (*   MC_Dispatch_dev_*.cfg one deviation on: TLC must report the deadlock / the lost call             *)
 EXTENDS Dispatch
@@ -13,6 +15,7 @@ CONSTANTS NCalls, KindSet, BodySet, SpawnSet
 
 Bodies_c29  == {<<"y", "y">>, <<"y", "w">>}
 Bodies_c30  == {<<"y", "w">>, <<"e", "y">>}
+Bodies_c30q == {<<"y", "w">>}
 Bodies_live == {<<"y", "w", "y">>, <<"e", "y">>}
 Bodies_dev  == {<<"y", "w">>}
 
